@@ -761,3 +761,53 @@ Theorem r_empty_submission_no_trace : forall max rst ok s, s = UNil \/ s = UEmpt
 Proof.
   intros max [[m d] sq] ok s [-> | ->]; destruct ok; cbn; auto.
 Qed.
+
+(* ---- admission of one submission is one atomic step, whatever it contains ---------------------------------- *)
+(* either nothing happens at all (no write, state incl. the sequence counter unchanged) or the WHOLE submission
+   becomes exactly one record and one queue entry, by exactly one datastore write *)
+Theorem r_submission_atomic : forall max rst ok s,
+  (fst (r_step max rst (UOp (USubmit ok s))) = rst /\ r_wlog max rst [UOp (USubmit ok s)] = []) \/
+  (exists b, s = UB b /\ ok = true /\
+     snd (r_step max rst (UOp (USubmit ok s))) = Some ROk /\
+     r_wlog max rst [UOp (USubmit ok s)] = [WPut (nseq rst) b] /\
+     mem (core (fst (r_step max rst (UOp (USubmit ok s))))) = mem (core rst) ++ [(nseq rst, b)] /\
+     db (core (fst (r_step max rst (UOp (USubmit ok s))))) = db_put (nseq rst) b (db (core rst)) /\
+     nseq (fst (r_step max rst (UOp (USubmit ok s)))) = nseq rst + 1).
+Proof.
+  intros max [[m d] sq] ok s. unfold r_step. cbn [r_wlog wlog key_item step core mem db nseq].
+  destruct ok; destruct s as [| |b]; cbn [key_op step_mem accepts fst snd apply_ws fold_left app]; auto.
+  destruct (full max m) eqn:F; cbn [fst snd apply_ws fold_left app negb apply_w core mem db nseq]; auto.
+  right. exists b. repeat split; reflexivity.
+Qed.
+
+(* a process death at ANY point inside a submission (after any number n of its datastore writes) leaves the
+   datastore either as it was or with the whole submission as one record; the restarted process is built from that *)
+Theorem r_submission_crash_atomic : forall max rst ok s n,
+  fst (r_step max rst (UCrash (USubmit ok s) n)) = r_boot (db (core rst)) \/
+  (exists b, s = UB b /\
+     fst (r_step max rst (UCrash (USubmit ok s) n)) = r_boot (db_put (nseq rst) b (db (core rst)))).
+Proof.
+  intros max [[m d] sq] ok s n. unfold r_step. cbn [key_item step core mem db nseq].
+  destruct ok; destruct s as [| |b]; cbn [key_op step_mem fst snd];
+    try (left; destruct n; reflexivity).
+  destruct (full max m); [left; destruct n; reflexivity|].
+  destruct n as [|n]; [left; reflexivity|right]. exists b. split; [reflexivity|].
+  cbn [firstn apply_ws fold_left apply_w load db fst]. destruct n; reflexivity.
+Qed.
+
+(* the same for a submission given as a list of transactions of ANY sizes (and any number of them) *)
+Theorem r_sized_submission_atomic : forall (enc : list tx -> batch) max rst ok req,
+  (fst (r_step max rst (UOp (USubmit ok (sub_of enc req)))) = rst /\
+   r_wlog max rst [UOp (USubmit ok (sub_of enc req))] = []) \/
+  (exists l, req = Some l /\ l <> [] /\ ok = true /\
+     snd (r_step max rst (UOp (USubmit ok (sub_of enc req)))) = Some ROk /\
+     r_wlog max rst [UOp (USubmit ok (sub_of enc req))] = [WPut (nseq rst) (enc l)] /\
+     mem (core (fst (r_step max rst (UOp (USubmit ok (sub_of enc req)))))) = mem (core rst) ++ [(nseq rst, enc l)] /\
+     db (core (fst (r_step max rst (UOp (USubmit ok (sub_of enc req)))))) = db_put (nseq rst) (enc l) (db (core rst))).
+Proof.
+  intros enc max rst ok req.
+  destruct (r_submission_atomic max rst ok (sub_of enc req)) as [H|[b (Hs & Hok & Hr & Hw & Hm & Hd & _)]]; [left; exact H|].
+  right. destruct req as [[|t l]|]; cbn [sub_of] in Hs; try discriminate.
+  exists (t :: l). inversion Hs as [Hb]. rewrite <- Hb in *.
+  repeat split; auto. discriminate.
+Qed.
